@@ -203,7 +203,82 @@ pub fn run(args: &vrt::Args) {
     out.finish();
 }
 
+/// Free-running contention (`{"race":"contend","threads":N,"iters":K,"ms":T}`): N real,
+/// unscheduled threads (real futex, the shim declines outside test threads) lock the mutex K
+/// times each; the hardware interleaves the single accesses, which reaches interleavings inside
+/// an atomic operation split into separate accesses (DESIGN §9).  Oracle: the occupancy monitor,
+/// the plain counter protected by the mutex, and completion (a thread that never returns from
+/// `lock()` although the mutex is free = lost wake-up).
+fn race(b: &Value, selftest: &str) -> Outcome {
+    let n = b.u("threads") as usize;
+    let iters = b.u("iters");
+    let ms = b.u("ms");
+    let mut o = Outcome { fail: None, step: -1, drift: 0, steps: 0, drift_at: -1, drift_why: String::new(), final_status: String::new() };
+    let m = Arc::new(VMutex::new(0u64));
+    let inside = Arc::new(AtomicUsize::new(0));
+    let broken = Arc::new(AtomicBool::new(false));
+    let stop = Arc::new(AtomicBool::new(false));
+    let ready = Arc::new(AtomicUsize::new(0));
+    let done = Arc::new(AtomicUsize::new(0));
+    let total = Arc::new(AtomicUsize::new(0));
+    let no_lock = selftest == "nolock";
+    for k in 0..n {
+        let (m, inside, broken, stop, ready, done, total) = (Arc::clone(&m), Arc::clone(&inside), Arc::clone(&broken),
+            Arc::clone(&stop), Arc::clone(&ready), Arc::clone(&done), Arc::clone(&total));
+        std::thread::spawn(move || {
+            ready.fetch_add(1, Ordering::SeqCst);
+            while ready.load(Ordering::SeqCst) < n {
+                std::hint::spin_loop();
+            }
+            let mut i = 0;
+            while i < iters && !stop.load(Ordering::Relaxed) {
+                let mut g = if no_lock { None } else { Some(m.lock()) };
+                if inside.fetch_add(1, Ordering::Relaxed) != 0 {
+                    broken.store(true, Ordering::Relaxed);
+                }
+                for _ in 0..(i as usize + k) % 5 {
+                    std::hint::spin_loop();
+                }
+                if let Some(g) = g.as_mut() {
+                    **g += 1;
+                }
+                inside.fetch_sub(1, Ordering::Relaxed);
+                drop(g);
+                total.fetch_add(1, Ordering::Relaxed);
+                i += 1;
+            }
+            done.fetch_add(1, Ordering::SeqCst);
+        });
+    }
+    let t0 = std::time::Instant::now();
+    while done.load(Ordering::SeqCst) < n {
+        std::thread::sleep(std::time::Duration::from_millis(5));
+        let el = t0.elapsed().as_millis() as u64;
+        if el > ms {
+            stop.store(true, Ordering::Relaxed);
+        }
+        if el > ms + 10_000 {
+            o.fail = Some(("C43:lost-wakeup".into(), format!("free-running contention: {} of {n} threads never came back from lock() within 10 s after the stop request", n - done.load(Ordering::SeqCst))));
+            break;
+        }
+    }
+    o.steps = total.load(Ordering::Relaxed) as u64;
+    if broken.load(Ordering::Relaxed) {
+        o.fail = Some(("C43:mutual-exclusion".into(), "free-running contention: two threads inside the critical section".into()));
+    } else if o.fail.is_none() && !no_lock {
+        let v = *m.lock();
+        if v != o.steps {
+            o.fail = Some(("C43:mutual-exclusion".into(), format!("free-running contention: the counter protected by the mutex is {v} after {} increments (lost update)", o.steps)));
+        }
+    }
+    o.final_status = format!("race contend x{n}: {} critical sections", o.steps);
+    o
+}
+
 fn replay(b: &Value, rng: &mut vrt::Rng, selftest: &str) -> Outcome {
+    if b.get("race").is_some() {
+        return race(b, selftest);
+    }
     let n = b.u("threads") as usize;
     // rounds: one number for all threads, or one per thread
     let rounds_of: Vec<usize> = match b.g("rounds") {
